@@ -16,7 +16,7 @@ func (c19) Size(tier string) Size {
 	if tier == "thorough" {
 		return Size{Batches: 16, Cases: 20000}
 	}
-	return Size{Batches: 4, Cases: 2000}
+	return Size{Batches: 8, Cases: 1200}
 }
 func (c19) Rule() string {
 	return "case = history of 1-80 operations on one SoftCollection: SetType (first, and again later with a wider / narrower / disjoint type), Add (soft or struct-backed resource of the collection's type, a narrower, a wider or a conflicting type; duplicate IDs), Remove (front/middle/end/missing/duplicate ID), AddAttr / AddRel (fresh and duplicate names), Set on a resource after it was added; after EVERY operation Len, At(i) for i in [-2,len+2], Resource(id) and, for every stored resource, Attrs/Rels and Get of every current field are compared with a list model. Add of an element of the collection itself (the pointer At returns) appends a second, equal element. Non-trivial = history with >= 2 Adds, >= 1 Remove and >= 1 field added after an Add; distinct = hash of the operation list."
